@@ -132,25 +132,3 @@ harness!(case_variants_all, 10, {
     reach!(SORTED_KEYWORDS[i] == Keyword::Function && mask == 0xAA);
     reach!(SORTED_KEYWORDS[i] == Keyword::Declare);
 });
-
-//# harness lookup_sound tier=thorough label=bounded(len<=3) props=C09 fn=rusty_parser/src/core/keyword.rs::Keyword::try_from timeout=3600
-harness!(lookup_sound, 10, {
-    // any word of 1..=3 letters: if the search answers Ok(k), the word is a spelling of k (never a wrong keyword)
-    let n = vs::usize();
-    vs::assume(1 <= n && n <= 3);
-    let mut buf = [0u8; MAXLEN];
-    let mut j = 0;
-    while j < 3 {
-        let c = vs::u8();
-        vs::assume(c.is_ascii_alphabetic());
-        buf[j] = c;
-        j += 1;
-    }
-    let s = unsafe { std::str::from_utf8_unchecked(&buf[..n]) };
-    match Keyword::try_from(s) {
-        Ok(k) => assert!(s.eq_ignore_ascii_case(k.as_str()), "found keyword is spelled like the word"),
-        Err(_) => {}
-    }
-    reach!(Keyword::try_from(s) == Ok(Keyword::If));
-    reach!(Keyword::try_from(s).is_err());
-});
